@@ -61,6 +61,14 @@ def mesh_model(repo: Repo, ip: Interp) -> Obj:
 def new_interp(repo: Repo):
     T = AtomTable()
     ip = Interp(repo, T)
+
+    def generic_any(ip_, a, k):
+        # a symbolic field stands for a generic (not identically zero) array; the all-zero special case is C10's business
+        from .interp import Cols, Field, Unsupported, Vec2
+        if a and isinstance(a[0], (Field, Vec2, Cols)):
+            return True
+        raise Unsupported("numpy.any of a non-field value")
+    ip.ext_overrides["numpy.any"] = generic_any
     return T, ip
 
 
